@@ -281,3 +281,98 @@ def dataset_section(rep):
     ok = len(oc) == 1 and oc[0][0] == "return" and isinstance(oc[0][1], dict) and oc[0][1].get("rotations") is toks["rotations"] and oc[0][1].get("translations") is toks["translations"]
     rep.add(Ob(id="dataset.getter.get_symmetry_operations-pairs-rotations-and-translations", status="proved" if ok else "refuted", backend="pyvc", kind="vc",
                func=REL + ":SymmetryAnalyzer.get_symmetry_operations"))
+
+
+def public_getters_section(rep):
+    """the public getters hand the right things to the internal steps: the primitive description and the Wyckoff sets are derived from the
+    conventional system together with its *normalised* letters and its orbit labels (not spglib's raw ones), under the detected group, with
+    the analyzer's tolerance; the per-atom getters return what those steps stored"""
+    from engine.symcoll import Opaque
+    m = contexts.symmetry_ctx()
+    P = REL + ":SymmetryAnalyzer."
+    T = {k: Opaque(k) for k in ("conventional system", "normalised conventional letters", "conventional orbit labels", "international short", "space group number", "tolerance",
+                                "raw spglib letters", "raw spglib orbit labels", "spglib conventional system", "prim system", "prim letters", "prim orbits", "sets")}
+    base = {P + "get_conventional_system": lambda *a: T["conventional system"],
+            P + "get_wyckoff_letters_conventional": lambda *a: T["normalised conventional letters"],
+            P + "get_equivalent_atoms_conventional": lambda *a: T["conventional orbit labels"],
+            P + "get_space_group_international_short": lambda *a: T["international short"],
+            P + "get_space_group_number": lambda *a: T["space group number"],
+            P + "_get_spglib_wyckoff_letters_conventional": lambda *a: T["raw spglib letters"],
+            P + "_get_spglib_equivalent_atoms_conventional": lambda *a: T["raw spglib orbit labels"],
+            P + "_get_spglib_conventional_system": lambda *a: T["spglib conventional system"]}
+
+    def run(fname, extra, fields=None, args=()):
+        f = m.get("SymmetryAnalyzer." + fname)
+        ex = Explorer(P + fname)
+        box = {}
+
+        def thunk(st):
+            c = dict(base)
+            c.pop(P + fname, None)
+            c.update(extra)
+            self_ = contexts.make_self(m, "SymmetryAnalyzer", dict({"symmetry_tol": T["tolerance"]}, **(fields or {})))
+            box["self"] = self_
+            return Interp(st, contracts=c).run_func(f, [self_] + list(args), {})
+
+        oc = ex.explore(thunk)
+        return oc, box.get("self")
+
+    # get_primitive_system
+    calls = []
+
+    def prim_contract(it, st, bound, site):
+        calls.append(bound)
+        return T["prim system"], T["prim letters"], T["prim orbits"]
+
+    oc, self_ = run("get_primitive_system", {P + "_get_primitive_system": prim_contract}, {"_primitive_system": None, "_primitive_wyckoff_letters": None, "_primitive_equivalent_atoms": None})
+    bad = []
+    if not (len(oc) == 1 and oc[0][0] == "return" and oc[0][1] is T["prim system"]) or len(calls) != 1:
+        bad.append("does not return the system built by _get_primitive_system (%d calls)" % len(calls))
+    else:
+        got = list(calls[0].values())[1:] if list(calls[0].keys())[0] in ("self",) else list(calls[0].values())
+        want = [T["conventional system"], T["normalised conventional letters"], T["conventional orbit labels"], T["international short"]]
+        if not (len(got) == 4 and all(x is y for x, y in zip(got, want))):
+            bad.append("_get_primitive_system is given %s instead of (conventional system, its normalised letters, its orbit labels, short symbol)" % ([getattr(x, "tag", x) for x in got],))
+        f_ = self_._f
+        if not (f_.get("_primitive_system") is T["prim system"] and f_.get("_primitive_wyckoff_letters") is T["prim letters"] and f_.get("_primitive_equivalent_atoms") is T["prim orbits"]):
+            bad.append("results are not stored for the per-atom getters")
+    rep.add(Ob(id="getters.get_primitive_system-uses-the-conventional-system-with-its-normalised-letters", status="proved" if not bad else "refuted", backend="pyvc", kind="vc",
+               func=P + "get_primitive_system", detail="; ".join(bad)[:500]))
+    # get_wyckoff_sets_conventional
+    calls2 = []
+
+    def sets_contract(it, st, bound, site):
+        calls2.append(bound)
+        return T["sets"]
+
+    for rp in (True, False):
+        calls2.clear()
+        oc, _ = run("get_wyckoff_sets_conventional", {P + "_get_wyckoff_sets": sets_contract}, args=(rp,))
+        bad = []
+        if not (len(oc) == 1 and oc[0][0] == "return" and oc[0][1] is T["sets"] and len(calls2) == 1):
+            bad.append("does not return the sets built by _get_wyckoff_sets")
+        else:
+            b = calls2[0]
+            want = {"system": T["conventional system"], "space_group": T["space group number"], "wyckoff_letters": T["normalised conventional letters"],
+                    "equivalent_atoms": T["conventional orbit labels"], "precision": T["tolerance"]}
+            wrong = [k for k, v in want.items() if b.get(k) is not v]
+            if wrong or b.get("return_parameters") is not rp:
+                bad.append("_get_wyckoff_sets is given wrong %s" % (wrong or ["return_parameters"]))
+        rep.add(Ob(id="getters.get_wyckoff_sets_conventional[return_parameters=%s]-uses-conventional-system-normalised-letters-orbits-group-tolerance" % rp,
+                   status="proved" if not bad else "refuted", backend="pyvc", kind="vc", func=P + "get_wyckoff_sets_conventional", detail="; ".join(bad)[:500]))
+    # per-atom getters: the stored field, computed on demand
+    for g, field, trigger in (("get_wyckoff_letters_primitive", "_primitive_wyckoff_letters", "get_primitive_system"), ("get_equivalent_atoms_primitive", "_primitive_equivalent_atoms", "get_primitive_system"),
+                              ("get_wyckoff_letters_conventional", "_conventional_wyckoff_letters", "get_conventional_system"),
+                              # the orbit labels of the conventional atoms are spglib's: the applied normalizer moves atoms but keeps their order (C05 frame)
+                              ("get_equivalent_atoms_conventional", "_spglib_equivalent_atoms_conventional", "_get_spglib_equivalent_atoms_conventional")):
+        tok = Opaque("stored " + field)
+        fired = []
+
+        def trig(it, st, bound, site, fired=fired, field=field, tok=tok):
+            fired.append(1)
+            bound[list(bound.keys())[0]]._f[field] = tok
+
+        oc1, _ = run(g, {}, {field: tok})
+        oc2, _ = run(g, {P + trigger: trig}, {field: None})
+        ok = len(oc1) == 1 and oc1[0][0] == "return" and oc1[0][1] is tok and len(oc2) == 1 and oc2[0][0] == "return" and oc2[0][1] is tok and len(fired) == 1
+        rep.add(Ob(id="getters.%s-returns-the-stored-field-computing-it-on-demand" % g, status="proved" if ok else "refuted", backend="pyvc", kind="vc", func=P + g))
